@@ -28,6 +28,8 @@ def item(i):
 
 
 def tname(i):
+    if i.get("via") == "inmod":
+        return "m::T"
     return "TI" if i["mode"] == "trait" else "T"
 
 
@@ -78,6 +80,12 @@ def main():
         vistext = None
         for r in sorted(recs, key=lambda r: (r["pid"], r["seq"]))[:1]:
             for it in r["items"]:
+                if i.get("via") == "inmod":
+                    if it["k"] == "mod":
+                        for sub in it["items"]:
+                            if sub["k"] == "trait" and sub["name"] == "T":
+                                vistext = sub["vis"]
+                    continue
                 if it["k"] == "trait" and it["name"] == tname(i):
                     vistext = it["vis"]
                 if it["k"] == "use" and it["path"].endswith("::T"):
@@ -86,7 +94,7 @@ def main():
             raise vf.ToolError(f"C13: cannot find the generated trait T in the expansion of case {cid}")
         o = {"compiled": d is None, "privacyonly": all(cd in PRIVACY for cd in codes) if d else True, "codes": codes,
              "vistext": vistext, "diag": [x["message"][:100] for x in (d or [])][:2]}
-        events.append({"case": cid, "l1": c["l1"], "obs": o, "pred": c["pred"], "predvis": i["vis"].replace(" ", ""), "cls": ""})
+        events.append({"case": cid, "l1": c["l1"], "obs": o, "pred": c["pred"], "predvis": ("pub(super)" if (i.get("via") == "inmod" and not i["vis"]) else i["vis"]).replace(" ", ""), "cls": ""})
     bad, drift = vf.validate(chk, "Trace_C13", events)
     byid = {c["case"]: c for c in cases}
     ev = {e["case"]: e for e in events}
@@ -94,7 +102,8 @@ def main():
     chk.cov["distinct_nontrivial"] = sum(1 for e in events if not e["obs"]["compiled"])
     chk.cov["positive_probes"] = sum(1 for e in events if e["obs"]["compiled"])
     chk.cov["rule"] = ("requested visibility {none, pub, pub(crate), and for fn inputs pub(super), pub(in crate::cases)} x item visibility (for trait inputs: the visibility keyword written before the target trait's name) {none, pub, "
-                       "pub(crate)} x {fn, mod, trait (delegation-target trait)} x probe location {same module, child, sibling, parent, other crate}; "
+                       "pub(crate)} x {fn, mod, trait (delegation-target trait)} x probe location {same module, child, sibling, parent, other crate}; module inputs are probed through both names, the "
+                       "re-export D::T and the trait itself D::m::T (from the locations that can name m); "
                        "all points replayed; non-trivial = negative probe (naming the trait must NOT compile)")
     chk.cov["exhaustive"] = True
     vf.report_drift(chk, drift, lambda d: f"in={byid[d['case']]['in']} obs={ev[d['case']]['obs']}")
